@@ -61,6 +61,7 @@ type Obligation struct {
 }
 
 type VC struct {
+	Approx   bool // quantifier-free candidate query (replay only)
 	NoSafety bool
 	COI      bool // standalone queries keep only hypotheses in the goal's cone of influence
 	Eng     *Engine
